@@ -24,7 +24,7 @@ from vlib import c12_env as env
 from easynetwork.clients.async_tcp import AsyncTCPNetworkClient
 from easynetwork.exceptions import BusyResourceError, ClientClosedError, StreamProtocolParseError
 from easynetwork.lowlevel._stream import StreamDataConsumer
-from easynetwork.lowlevel.api_async.endpoints.stream import AsyncStreamEndpoint
+from easynetwork.lowlevel.api_async.endpoints.stream import AsyncStreamEndpoint, AsyncStreamSenderEndpoint
 from easynetwork.protocol import StreamProtocol
 from easynetwork.serializers.abc import AbstractIncrementalPacketSerializer
 from easynetwork.serializers.tools import GeneratorStreamReader
@@ -183,8 +183,12 @@ class Senders:
 
 
 def finish(case: dict, trace: env.Trace, wire: bytes, res: Any, loop: env.VLoop) -> list[str]:
+    return finish_lines(case, trace, wire, isinstance(res, env.Deadlock) or loop.deadlocked)
+
+
+def finish_lines(case: dict, trace: env.Trace, wire: bytes, deadlocked: bool) -> list[str]:
     lines = list(trace.lines)
-    if isinstance(res, env.Deadlock) or loop.deadlocked:
+    if deadlocked:
         lines.append("deadlock")
     lines.append(f"wire {core.hexs(bytes(wire))}")
     lines.extend(parse_wire(case["spec"], bytes(wire)))
@@ -192,13 +196,19 @@ def finish(case: dict, trace: env.Trace, wire: bytes, res: Any, loop: env.VLoop)
 
 
 # ------------------------------------------------------------------------------------------------
+# Every target is a SESSION: `session_x(case, trace, box)` returns the coroutine function that builds the library object,
+# runs the senders on it and cleans up.  `run_x` runs one session alone on a fresh loop; c12_multi runs several sessions
+# (of mixed kinds) concurrently in ONE loop.  `env.make_backend` gives the session its own HBackend, or the backend shared
+# by all the sessions of the loop.
+# ------------------------------------------------------------------------------------------------
 
-def run_aclient(case: dict) -> list[str]:
-    trace = env.Trace()
-    box: dict[str, Any] = {}
+def _wire_of(box: dict) -> bytes:
+    return box["tr"].wire if "tr" in box else b""
 
+
+def session_aclient(case: dict, trace: env.Trace, box: dict):
     async def main() -> None:
-        backend = env.HBackend(trace, lock_kind=case.get("lock", "fair"))
+        backend = env.make_backend(trace, lock_kind=case.get("lock", "fair"))
         tr = env.MemTransport(backend, trace, env.Script(case["script"]), mode=case.get("mode", "iter"))
         box["tr"] = tr
         backend.transports.append(tr)
@@ -213,32 +223,43 @@ def run_aclient(case: dict) -> list[str]:
         trace.enabled = False
         await _quiet(client.aclose())
 
-    res, loop = env.run(main, trace)
-    return finish(case, trace, box["tr"].wire if "tr" in box else b"", res, loop)
+    return main
 
 
-def run_endpoint(case: dict) -> list[str]:
-    """no lock above the endpoint: ResourceGuard must refuse the concurrent call instead of interleaving"""
+def run_aclient(case: dict) -> list[str]:
     trace = env.Trace()
     box: dict[str, Any] = {}
+    res, loop = env.run(session_aclient(case, trace, box), trace)
+    return finish(case, trace, _wire_of(box), res, loop)
 
+
+def session_endpoint(case: dict, trace: env.Trace, box: dict):
+    """no lock above the endpoint: ResourceGuard must refuse the concurrent call instead of interleaving.
+    target `sendpoint` = the write-only AsyncStreamSenderEndpoint (same contract)"""
     async def main() -> None:
-        backend = env.HBackend(trace)
+        backend = env.make_backend(trace)
         tr = env.MemTransport(backend, trace, env.Script(case["script"]), mode=case.get("mode", "iter"))
         box["tr"] = tr
-        ep = AsyncStreamEndpoint(tr, build_protocol(case["spec"]), max_recv_size=1024)
+        if case["target"] == "sendpoint":
+            ep: Any = AsyncStreamSenderEndpoint(tr, build_protocol(case["spec"]))
+        else:
+            ep = AsyncStreamEndpoint(tr, build_protocol(case["spec"]), max_recv_size=1024)
         await Senders(case, trace, ep.send_packet, lambda: set()).run()
         trace.enabled = False
         await _quiet(ep.aclose())
 
-    res, loop = env.run(main, trace)
-    return finish(case, trace, box["tr"].wire if "tr" in box else b"", res, loop)
+    return main
 
 
-def run_fairlock(case: dict) -> list[str]:
-    """FairLock alone: every task does rounds of  [timeout d:] acquire ; hold ; release"""
+def run_endpoint(case: dict) -> list[str]:
     trace = env.Trace()
+    box: dict[str, Any] = {}
+    res, loop = env.run(session_endpoint(case, trace, box), trace)
+    return finish(case, trace, _wire_of(box), res, loop)
 
+
+def session_fairlock(case: dict, trace: env.Trace, box: dict):
+    """FairLock alone: every task does rounds of  [timeout d:] acquire ; hold ; release"""
     async def main() -> None:
         lock = env.LoggedFairLock(trace) if case.get("lock", "fair") == "fair" else env.LoggedAsyncioLock(trace)
         loop = asyncio.get_running_loop()
@@ -285,40 +306,64 @@ def run_fairlock(case: dict) -> list[str]:
         await asyncio.gather(*tasks.values())
         trace.ev(f"final {lock.state()}")
 
-    res, loop = env.run(main, trace)
+    return main
+
+
+def fairlock_lines(trace: env.Trace, deadlocked: bool) -> list[str]:
     lines = list(trace.lines)
-    if isinstance(res, env.Deadlock) or loop.deadlocked:
+    if deadlocked:
         lines.append("deadlock")
     return lines
 
 
-def run_sclient(case: dict) -> list[str]:
-    """the client object a request handler gets from AsyncTCPNetworkServer (servers/async_tcp._ConnectedClientAPI)"""
+def run_fairlock(case: dict) -> list[str]:
+    trace = env.Trace()
+    res, loop = env.run(session_fairlock(case, trace, {}), trace)
+    return fairlock_lines(trace, isinstance(res, env.Deadlock) or loop.deadlocked)
+
+
+def session_sclient(case: dict, trace: env.Trace, box: dict, more: tuple = ()):
+    """the client object a request handler gets from AsyncTCPNetworkServer (servers/async_tcp._ConnectedClientAPI).
+    `more` (c12_multi): further connections `(obj, case, trace, box)` accepted by the SAME server, each with its own
+    server-side client object, senders and in-memory transport"""
     import logging
 
     from easynetwork.servers.async_tcp import AsyncTCPNetworkServer
     from easynetwork.servers.handlers import AsyncStreamRequestHandler
 
-    trace = env.Trace()
-    box: dict[str, Any] = {}
-
     async def main() -> None:
-        backend = env.HBackend(trace, lock_kind=case.get("lock", "fair"))
-        tr = env.MemTransport(backend, trace, env.Script(case["script"]), mode=case.get("mode", "iter"))
-        box["tr"] = tr
-        backend.listener_transports.append(tr)
-        backend.lock_names = [""]
+        me = env.OBJ.get()
+        backend = env.make_backend(trace, lock_kind=case.get("lock", "fair"))
+        conns = {me: (case, trace, box)}
+        for obj, c, t, b in more:
+            backend.register(t, c.get("lock", "fair"), obj=obj)       # (a group of connections needs the routing backend)
+            conns[obj] = (c, t, b)
+        trs = []
+        for obj, (c, t, b) in conns.items():
+            tr = env.MemTransport(backend, t, env.Script(c["script"]), mode=c.get("mode", "iter"))
+            tr.obj = obj
+            b["tr"] = tr
+            trs.append(tr)
+            if obj == me:
+                backend.lock_names = [""]
+            else:
+                backend.record(obj).lock_names = [""]
+        backend.listener_transports.extend(trs)
         done = asyncio.Event()
+        left = [len(conns)]
 
         class Handler(AsyncStreamRequestHandler):
             async def on_connection(self, client) -> None:
+                c, t, _b = conns[env.OBJ.get()]
                 lock = backend.fair_locks[0]
                 try:
-                    await Senders(case, trace, client.send_packet, lambda: lock.parked).run()
-                    trace.ev(f"final {lock.state()}")
+                    await Senders(c, t, client.send_packet, lambda: lock.parked).run()
+                    t.ev(f"final {lock.state()}")
                 finally:
-                    trace.enabled = False
-                    done.set()
+                    t.enabled = False
+                    left[0] -= 1
+                    if left[0] <= 0:
+                        done.set()
 
             async def handle(self, client):
                 yield
@@ -329,11 +374,18 @@ def run_sclient(case: dict) -> list[str]:
         task = asyncio.get_running_loop().create_task(server.serve_forever(), name="server")
         waiter = asyncio.get_running_loop().create_task(done.wait(), name="done")
         await asyncio.wait([task, waiter], return_when=asyncio.FIRST_COMPLETED)
-        trace.enabled = False
+        for _c, t, _b in conns.values():
+            t.enabled = False
         await server.shutdown()
         await server.server_close()
         waiter.cancel()
         await asyncio.gather(task, waiter, return_exceptions=True)
 
-    res, loop = env.run(main, trace)
-    return finish(case, trace, box["tr"].wire if "tr" in box else b"", res, loop)
+    return main
+
+
+def run_sclient(case: dict) -> list[str]:
+    trace = env.Trace()
+    box: dict[str, Any] = {}
+    res, loop = env.run(session_sclient(case, trace, box), trace)
+    return finish(case, trace, _wire_of(box), res, loop)
